@@ -22,6 +22,8 @@ const (
 	c11RawInterp
 )
 
+const c11Prelude = "package main\nimport frt\nimport strings\n\nlet keepStrings () =\n  strings.Length \"\"\n\n"
+
 var c11FormNames = []string{`"..."`, "`...`", `$"..."`, "$`...`"}
 
 // hole variables available to interpolated literals and their display forms
@@ -108,11 +110,13 @@ type c11Case struct {
 
 var c11Special = []string{"\\", "\"", "`", "{", "}", "%", "$", "n", "t", "\n", "x"}
 
+// contexts: 0 alone, 1 + "Z", 2 pattern (plain and raw strings only), 3 twice in one slice literal on one line
+// (joined), 4 as the first of two arguments of a library call
 func c11Ctx(c *explore.Chooser, form int) int {
 	if form == c11Str || form == c11Raw {
-		return c.Choose(3)
+		return c.Choose(5)
 	}
-	return c.Choose(2)
+	return []int{0, 1, 3, 4}[c.Choose(4)]
 }
 
 // driver 1: every string of length <= maxLen over the special alphabet, in each form
@@ -197,6 +201,12 @@ func checkC11(c *core.Ctx) {
 			if cur.ctx == 2 {
 				text = "hit:" + text
 			}
+			if cur.ctx == 3 {
+				text = text + "|" + text
+			}
+			if cur.ctx == 4 {
+				text = "Y" + text
+			}
 			key := fmt.Sprint(cur.form, cur.ctx) + "|" + cur.body
 			if seen[key] {
 				return true
@@ -265,6 +275,12 @@ func c11Program(cs *c11Case, k int) gobatch.Prog {
 		fmt.Fprintf(&sb, "  let v = match %s with\n          | %s -> \"hit:\"\n          | _ -> \"miss:\"\n  frt.Printf1 \"%%s\" v\n  frt.Printf1 \"%%s\" %s\n", lit, lit, lit)
 		return gobatch.Prog{Defs: sb.String(), Run: fmt.Sprintf("run_%d", k)}
 	}
+	if cs.ctx == 3 {
+		lit = "strings.Concat \"|\" [" + lit + "; " + lit + "]"
+	}
+	if cs.ctx == 4 {
+		lit = "strings.AppendTail " + lit + " \"Y\""
+	}
 	fmt.Fprintf(&sb, "  let v = %s\n  frt.Printf1 \"%%s\" v\n", lit)
 	return gobatch.Prog{Defs: sb.String(), Run: fmt.Sprintf("run_%d", k)}
 }
@@ -288,7 +304,7 @@ func c11Sig(cs *c11Case, status string) string {
 }
 
 func c11RunBatch(c *core.Ctx, sc *impl.Scratch, fc string, part []*c11Case) {
-	env := &gobatch.Env{Sc: sc, FC: fc, FCArgs: []string{sc.PkgAllFoi()}, Prelude: "package main\nimport frt\n\n"}
+	env := &gobatch.Env{Sc: sc, FC: fc, FCArgs: []string{sc.PkgAllFoi()}, Prelude: c11Prelude}
 	progs := make([]gobatch.Prog, len(part))
 	for k, cs := range part {
 		progs[k] = c11Program(cs, k)
@@ -312,6 +328,6 @@ func c11RunBatch(c *core.Ctx, sc *impl.Scratch, fc string, part []*c11Case) {
 		}
 		c.Outcome(status)
 		c.Violation(c11Sig(cs, status), fmt.Sprintf("literal %s should denote %q: %s %q %s", c11Literal(cs.form, cs.body), cs.want, r.Status, r.Stdout, firstLines(r.Detail, 3)),
-			map[string]any{"choices": cs.choices, "form": c11FormNames[cs.form], "body": cs.body, "input": map[string]string{"t.fo": "package main\nimport frt\n\n" + progs[k].Defs}, "expected": cs.want, "observed": r.Status + ": " + r.Stdout + " " + trunc(r.Detail, 800)})
+			map[string]any{"choices": cs.choices, "form": c11FormNames[cs.form], "body": cs.body, "input": map[string]string{"t.fo": c11Prelude + progs[k].Defs}, "expected": cs.want, "observed": r.Status + ": " + r.Stdout + " " + trunc(r.Detail, 800)})
 	}
 }
